@@ -5,7 +5,9 @@ EXTENDS MapGeom
 Tri(m) == FromZXZ(m % 4, (m \div 4) % 4, (m \div 16) % 4)
 
 \* ---- rotation: all 24 rotations x odd, even, non-cubic boxes
-MCRotDims == { <<5, 5, 5>>, <<6, 6, 6>>, <<5, 6, 7>>, <<8, 6, 6>> }
+\* odd, even, non-cubic boxes; the smallest box with an interior voxel; boxes with a 1- or 2-voxel axis (nothing decided,
+\* but still a map of that shape)
+MCRotDims == { <<5, 5, 5>>, <<6, 6, 6>>, <<5, 6, 7>>, <<8, 6, 6>>, <<3, 3, 3>>, <<4, 3, 5>>, <<1, 5, 5>>, <<2, 6, 4>> }
 MCRotCases == { [dims |-> dd, R |-> r] : dd \in MCRotDims, r \in All }
 MCRotCasesBig == { [dims |-> dd, R |-> r] : dd \in MCRotDims \cup { <<7, 7, 7>>, <<9, 8, 10>>, <<12, 12, 12>> }, r \in All }
 
@@ -23,7 +25,11 @@ MCCDims == <<12, 10, 9>>
 \* n poses at lattice positions from -1 .. dim+2 (partly and fully outside included), orientations walking through the group
 PoseSeq(n, k) == [i \in 1..n |-> [pos |-> << ((3 * i + k) % 15) - 1, ((5 * i + 2 * k) % 13) - 1, ((7 * i + 3 * k) % 12) - 1 >>,
                                   R |-> Tri((7 * i + 11 * k) % 64), colour |-> 1 + ((i + k) % 4)]]
-MCPlaceCases == { [cdims |-> MCCDims, tmpl |-> t, poses |-> PoseSeq(n, k)] :
+\* the same pose twice in the list (the later entry wins), and a list entry far outside the container
+MCRepeatCases == { [cdims |-> MCCDims, tmpl |-> t, poses |-> << [pos |-> <<6, 5, 4>>, R |-> r, colour |-> 1], [pos |-> <<3, 8, 2>>, R |-> Rx1, colour |-> 2],
+                                                              [pos |-> <<6, 5, 4>>, R |-> r, colour |-> 3], [pos |-> <<40, -30, 5>>, R |-> r, colour |-> 4] >>]
+                      : t \in {Tmpl8, Tmpl6}, r \in {Id, Rz1, Mul(Rx1, Ry1)} }
+MCPlaceCases == MCRepeatCases \cup { [cdims |-> MCCDims, tmpl |-> t, poses |-> PoseSeq(n, k)] :
                      t \in {Tmpl8, Tmpl6}, n \in {1, 2, 3, 5, 8, 13, 20}, k \in 0..2 }
                 \cup { [cdims |-> MCCDims, tmpl |-> Tmpl8, poses |-> << [pos |-> <<6, 5, 4>>, R |-> r, colour |-> 3] >>] : r \in All }
 MCPlaceCasesBig == MCPlaceCases \cup { [cdims |-> cd, tmpl |-> t, poses |-> PoseSeq(n, k)] :
@@ -49,10 +55,13 @@ MCWindowCases == { [vdims |-> MCVDims, centre |-> <<a, b, c>>, shape |-> sh] : a
 \* centred windows (crop / pad with even sizes): volume dims even, window centred at N/2
 MCCentredCases == { [vdims |-> vd, centre |-> Centre(vd), shape |-> sh] : vd \in { <<4, 6, 8>>, <<6, 6, 6>> },
                                                                         sh \in { <<2, 2, 2>>, <<4, 6, 8>>, <<2, 4, 6>>, <<8, 8, 8>>, <<6, 10, 8>>, <<10, 12, 14>> } }
-MCWindowAll == MCWindowCases \cup MCCentredCases
+\* volumes with a 1-voxel axis (single slices)
+MCThinCases == { [vdims |-> <<1, 4, 7>>, centre |-> <<a, b, c>>, shape |-> sh] : a \in {-1, 0, 1}, b \in {0, 2, 5}, c \in {3, 8},
+                                                                             sh \in { <<2, 2, 2>>, <<2, 4, 6>> } }
+MCWindowAll == MCWindowCases \cup MCCentredCases \cup MCThinCases
 
 \* ---- symmetrisation
-MCSymCases == { [dims |-> dd, n |-> n] : dd \in { <<5, 5, 5>>, <<6, 6, 6>>, <<7, 6, 5>>, <<8, 8, 4>> }, n \in {2, 4} }
+MCSymCases == { [dims |-> dd, n |-> n] : dd \in { <<5, 5, 5>>, <<6, 6, 6>>, <<7, 6, 5>>, <<8, 8, 4>> }, n \in {1, 2, 4} }
 
 Empty == {}
 =============================================================================
